@@ -59,7 +59,7 @@ ASSUMPTIONS = [
     "a float given for a documented int parameter (arm of all three commands, every int parameter of evo_wash) counts "
     "as out of its documented domain also when it is integer-valued (0.0, 1.0, 500.0)",
     "bool, numpy integers, invalid tip numbers (C10), unknown well ids, separators/quotes in the liquid class (C09) "
-    "and volumes given as tuple/array are not generated (the statement does not decide them); labware state after a "
+    "are not generated (the statement does not decide them); per-tip volumes given as tuple / array / 2-D block are generated, a refusal of them is not judged, an accepted call is judged like any other; labware state after a "
     "refused call is not judged (the tracking runs before the command is built; C03)",
     "evo_wash: the volume strings must be a decimal with at most one fractional digit within 0.05 of the argument; "
     "Tip.Any and invalid tip numbers are not generated for evo_wash",
@@ -349,6 +349,20 @@ def gen_case(rng, tier, index):
     pos = {"__tuple__": [grid, site]} if rng.random() < 0.8 else [grid, site]
     case = {"ep": ep, "lw": lw, "wlmax": wlmax, "wells": wells, "tips": tips, "vol": vol, "pos": pos, "arm": arm,
             "lc": rng.choice(LCS)}
+    if isinstance(vol, list) and len(vol) == k and vp in ("nonuni", "twoval", "uniform") and rng.random() < 0.12:
+        # the same per-tip volumes in another container (tuple, array, a 2-D block laid out like the wells):
+        # whether such a call is accepted is not decided by the statement; an accepted one must still agree
+        forms = ["tuple", "array"]
+        if wf == "2d":
+            forms += ["2d", "2d", "nested", "nested"]
+        case["vol_form"] = vf = rng.choice(forms)
+        if vf == "tuple":
+            case["vol"] = {"__tuple__": list(vol)}
+        elif vf == "array":
+            case["vol"] = enc(np.array(vol, dtype=float))
+        else:
+            nested = [[vol[j * r_ + i] for j in range(c_)] for i in range(r_)]
+            case["vol"] = enc(np.array(nested, dtype=float)) if vf == "2d" else nested
     if rng.random() < 0.15:
         case["label"] = rng.choice(["step", "mix 3x", "line one\nline two"])
     return case
@@ -406,8 +420,11 @@ def structure(case, o):
     tips = list(o["tips"])
     nums = [_tipnum(t) for t in tips]
     vol = o["vol"]
-    per_tip = isinstance(vol, list)
-    vols = list(vol) if per_tip else [vol] * k
+    per_tip = isinstance(vol, (list, tuple, np.ndarray))
+    if case.get("vol_form"):
+        vols = list(flat_f(vol))  # column-major, like the wells
+    else:
+        vols = list(vol) if per_tip else [vol] * k
     s = {
         "ids": ids, "rcs": rcs, "k": k, "nums": nums, "per_tip": per_tip, "vols": vols,
         "cols_used": sorted({rc[1] for rc in rcs if rc is not None}),
@@ -587,6 +604,10 @@ def run_case(ctx, case):
         ctx.count(f"refused:{ep}")
         ctx.check("nothing_appended_on_reject", not brecs, det)
 
+    if case.get("vol_form"):
+        ctx.count("volumes_in_other_container:" + case["vol_form"] + (":refused" if exc is not None else ":accepted"))
+        if exc is not None:
+            return
     # ---- calls that cannot be expressed must be refused
     classes = refusal_classes(s)
     if classes:
